@@ -57,6 +57,27 @@ def denote {K} [Add K] [Sub K] [Mul K] [Zero K] (cj : K → K) : Term K → List
   | .scale c t, x => smul c (denote cj t x)
   | .conj, x => x.map cj
 
+/-- A polarised field (2 components for a Jones-vector field, 4 for a Jones-matrix field) is stored
+component after component; elements without polarisation optics act on each component as on a
+scalar field: `denoteBlocks cj t n r x` applies `t` to each of the `r` consecutive chunks of length
+`n` of `x`. -/
+def denoteBlocks {K} [Add K] [Sub K] [Mul K] [Zero K] (cj : K → K) (t : Term K) (n : Nat) : Nat → List K → List K
+  | 0, _ => []
+  | r + 1, x => denote cj t (x.take n) ++ denoteBlocks cj t n r (x.drop n)
+
+/-- Change of scalars, entry by entry (used to transport a run of the driver, which computes with
+`CDy`, to `ℂ`: `Lemmas/OpIR.lean: denote_map`). -/
+def Term.map {K L : Type} (f : K → L) : Term K → Term L
+  | .id => .id
+  | .zero n => .zero n
+  | .mulField a => .mulField (a.map f)
+  | .matrix rows => .matrix (rows.map (fun r => r.map f))
+  | .add s t => .add (s.map f) (t.map f)
+  | .sub s t => .sub (s.map f) (t.map f)
+  | .comp s t => .comp (s.map f) (t.map f)
+  | .scale c t => .scale (f c) (t.map f)
+  | .conj => .conj
+
 /-- Parity of a term: `some false` = linear, `some true` = conjugate-linear, `none` = a sum of a
 linear and a conjugate-linear part (neither).  Computed structurally, never by evaluation. -/
 def parity {K} : Term K → Option Bool
@@ -94,17 +115,65 @@ instance : Zero CRat := ⟨⟨0, 0⟩⟩
 def conj (a : CRat) : CRat := ⟨a.re, -a.im⟩
 end CRat
 
+/-! ## Gaussian dyadic rationals: the scalar type the driver computes with on floats
+
+Every float is a dyadic rational `m / 2^e`.  `Dy` keeps that form un-normalised (no gcd per
+operation, which is what makes `Rat` slow on dense matrices); `Dy.toRat` is its value, and
+`Lemmas/OpIR.lean` proves that `+`, `-`, `*`, `0` on `Dy` are those of `Rat` under `toRat`
+(`Dy.toRat_add`, `Dy.toRat_sub`, `Dy.toRat_mul`, `Dy.toRat_zero`), likewise for `CDy` and `CRat`. -/
+
+structure Dy where
+  m : Int
+  e : Nat
+  deriving Repr
+
+namespace Dy
+/-- numerator of `a` over the denominator `2^e` (for `e ≥ a.e`). -/
+def align (a : Dy) (e : Nat) : Int := a.m * (((2 : Nat) ^ (e - a.e) : Nat) : Int)
+instance : Add Dy := ⟨fun a b => ⟨a.align (max a.e b.e) + b.align (max a.e b.e), max a.e b.e⟩⟩
+instance : Sub Dy := ⟨fun a b => ⟨a.align (max a.e b.e) - b.align (max a.e b.e), max a.e b.e⟩⟩
+instance : Mul Dy := ⟨fun a b => ⟨a.m * b.m, a.e + b.e⟩⟩
+instance : Zero Dy := ⟨⟨0, 0⟩⟩
+def neg (a : Dy) : Dy := ⟨-a.m, a.e⟩
+def toRat (a : Dy) : Rat := mkRat a.m (2 ^ a.e)
+/-- a rational whose (reduced) denominator is a power of two. -/
+def ofRat? (q : Rat) : Option Dy :=
+  let e := Nat.log2 q.den
+  if 2 ^ e = q.den then some ⟨q.num, e⟩ else none
+end Dy
+
+structure CDy where
+  re : Dy
+  im : Dy
+  deriving Repr
+
+namespace CDy
+instance : Add CDy := ⟨fun a b => ⟨a.re + b.re, a.im + b.im⟩⟩
+instance : Sub CDy := ⟨fun a b => ⟨a.re - b.re, a.im - b.im⟩⟩
+instance : Mul CDy := ⟨fun a b => ⟨a.re * b.re - a.im * b.im, a.re * b.im + a.im * b.re⟩⟩
+instance : Zero CDy := ⟨⟨0, 0⟩⟩
+def conj (a : CDy) : CDy := ⟨a.re, a.im.neg⟩
+def toCRat (a : CDy) : CRat := ⟨a.re.toRat, a.im.toRat⟩
+end CDy
+
 /-! ## A map that is *not* in the IR: input-dependent selection
 
 "Only propagate what this input excites": keep the components that carry more than a fraction `θ`
 of this input's total power, drop the others.  It commutes with scalar factors, so it passes every
 test that uses one input at a time or inputs of comparable size, but it is not additive
 (Properties/C06.lean: `keepExcited_homogeneous`, `keepExcited_not_additive`).  No `Term` denotes
-it; the harness therefore probes additivity with terms of very different magnitude. -/
+it; the harness therefore probes additivity with terms of very different magnitude.
+
+Namespace `Old`: this is the model of a *defect class* (seeded defect C06-2), not of code that exists
+in /repo; no driver op runs it and the theorems about it are documentation of why the wide-magnitude
+probe exists, not evidence about hcipy. -/
+namespace Old
 
 def sumsq (x : List Rat) : Rat := (x.map (fun c => c * c)).sum
 
 def keepExcited (θ : Rat) (x : List Rat) : List Rat :=
   x.map (fun c => if θ * sumsq x < c * c then c else 0)
+
+end Old
 
 end HcipyVerif.OpIR
